@@ -35,12 +35,8 @@ Theorem mul_directed : binary_stmt honours mul_int ex_mul no_side. Proof. exact 
 Theorem mul_exact_or_classified : binary_stmt crispP mul_int ex_mul no_side. Proof. exact mul_crisp. Qed.
 
 (* division family *)
-Theorem div_correct_partial : binary_stmt correct div_int ex_div divisor_positive_or_m1. Proof. exact Summary.div_correct_partial. Qed.
-Theorem div_directed_partial : binary_stmt honours div_int ex_div divisor_positive_or_m1. Proof. exact Summary.div_directed_partial. Qed.
-Theorem div_signed_refuted :
-  exists c d x y old sr, cfg_wf c /\ check_overflow (pol c) = true /\ fin (pol c) (ty c) x /\ fin (pol c) (ty c) y /\ y <> 0%Z /\
-    div_int c d x y old = Some sr /\ ~ ok (pol c) (ty c) d sr (EFrac x y).
-Proof. exact IntRefuted.div_signed_refuted. Qed.
+Theorem div_correct : binary_stmt correct div_int ex_div nonzero_divisor. Proof. exact Summary.div_correct. Qed.
+Theorem div_directed : binary_stmt honours div_int ex_div nonzero_divisor. Proof. exact Summary.div_directed. Qed.
 Theorem idiv_correct : binary_stmt correct idiv_int ex_idiv nonzero_divisor. Proof. exact Summary.idiv_correct. Qed.
 Theorem idiv_directed : binary_stmt honours idiv_int ex_idiv nonzero_divisor. Proof. exact Summary.idiv_directed. Qed.
 Theorem rem_correct : binary_stmt correct rem_int ex_rem nonzero_divisor. Proof. exact Summary.rem_correct. Qed.
@@ -49,21 +45,8 @@ Theorem rem_directed : binary_stmt honours rem_int ex_rem nonzero_divisor. Proof
 (* fused multiply-add / multiply-sub *)
 Theorem add_mul_correct : ternary_stmt correct add_mul_int ex_add_mul no_side3. Proof. exact Summary.add_mul_correct. Qed.
 Theorem add_mul_directed : ternary_stmt honours add_mul_int ex_add_mul no_side3. Proof. exact Summary.add_mul_directed. Qed.
-Theorem sub_mul_correct_partial : ternary_stmt correct sub_mul_int ex_sub_mul not_sub_mul_boundary. Proof. exact Summary.sub_mul_correct_partial. Qed.
-Theorem sub_mul_directed_partial : ternary_stmt honours sub_mul_int ex_sub_mul not_sub_mul_boundary. Proof. exact Summary.sub_mul_directed_partial. Qed.
-Theorem sub_mul_int_refuted :
-  exists c d x y z sr, cfg_wf c /\ check_overflow (pol c) = true /\ fin (pol c) (ty c) x /\ fin (pol c) (ty c) y /\
-    fin (pol c) (ty c) z /\ sub_mul_int c d x y z = Some sr /\ ~ ok (pol c) (ty c) d sr (EInt (z - x * y)).
-Proof. exact IntRefuted.sub_mul_int_refuted. Qed.
-
-(* defects outside the proved group, as refutations of the faithful model *)
-Theorem sqrt_signed_refuted :
-  exists c d x old, cfg_wf c /\ check_overflow (pol c) = true /\ fin (pol c) (ty c) x /\ (0 <= x)%Z /\ sqrt_int c d x old = None.
-Proof. exact IntRefuted.sqrt_signed_refuted. Qed.
-Theorem lcm_refuted :
-  exists c d x y old sr, cfg_wf c /\ check_overflow (pol c) = true /\ fin (pol c) (ty c) x /\ fin (pol c) (ty c) y /\
-    lcm_int c d x y old = Some sr /\ ~ ok (pol c) (ty c) d sr (EInt (Z.lcm x y)).
-Proof. exact IntRefuted.lcm_refuted. Qed.
+Theorem sub_mul_correct : ternary_stmt correct sub_mul_int ex_sub_mul no_side3. Proof. exact Summary.sub_mul_correct. Qed.
+Theorem sub_mul_directed : ternary_stmt honours sub_mul_int ex_sub_mul no_side3. Proof. exact Summary.sub_mul_directed. Qed.
 
 (* the "consequently" clause *)
 Theorem bounded_never_lies : bounded_never_lies_stmt. Proof. exact bounded_never_lies_proof. Qed.
